@@ -5,11 +5,21 @@ from bcheck import pipe_driver as pd
 MODES = ['best', 'separate', 'joined', 'all']
 
 
+def _special(i):
+    """sets on which the SECOND pass has nothing to do (every query placed completely, or no query placed at all), run with the default
+    worker count (no -c option) and an output name without extension: an execute() call with zero work items"""
+    if i % 7 == 5:
+        return dict(kinds=('exact',), weights=None, style=2, modes=['best', 'separate'])
+    if i % 7 == 6:
+        return dict(kinds=('degenerate',), weights=None, style=2, modes=['all', 'best'])
+    return None
+
+
 def bounded(repo, tier, seed):
     n = 70 if tier == 'quick' else 1400
     params = [{}, {'p': 1}, {'d': 500, 'ms': 500}, {'su': -50, 'bs': 300}, {'p': 5, 'diff': 1000}, {'ss': 1}, {'ss': 1, 'sj': 2.0, 'p': 5}]
     return pd.run(repo, tier, seed, ['C07'], lambda i: [MODES[i % 4], MODES[(i + 1) % 4]] if tier == 'quick' else MODES, n, params_list=params,
-                  weights=[1, 2, 1, 2, 2, 6], odd_refs=True,
+                  weights=[1, 2, 1, 2, 2, 6], odd_refs=True, overrides=_special,
                   rule="generated CMAP sets with the degenerate classes over-weighted (one- and two-label molecules, duplicate coordinates, queries longer than every "
                        "reference, unrelated random molecules, references of any size), all four multi-pass output modes, five parameter settings; contract: no "
                        "exception out of Program.run, every file has 7 header lines and 15-column records and is read back by XmapReader.readAlignments "
